@@ -218,6 +218,18 @@ func (g *Gate) Release() {
 	g.c.mu.Unlock()
 }
 
+// RenameLast changes the point of the most recent harness-made event (fn, from) to `to`.
+func (c *Ctl) RenameLast(fn, from, to string) {
+	c.mu.Lock()
+	defer c.mu.Unlock()
+	for i := len(c.events) - 1; i >= 0; i-- {
+		if c.events[i].Role == Other && c.events[i].Fn == fn && c.events[i].Point == from {
+			c.events[i].Point = to
+			return
+		}
+	}
+}
+
 // IsClosed reports whether DB.Close has returned.
 func (c *Ctl) IsClosed() bool { c.mu.Lock(); defer c.mu.Unlock(); return c.Closed }
 
@@ -335,11 +347,11 @@ type wdb struct {
 }
 
 func (d *wdb) Close() error {
-	d.c.at("close", 0, 0, false)
 	err := d.in.Close()
 	d.c.mu.Lock()
 	d.c.Closed = true
 	d.c.mu.Unlock()
+	d.c.at("close", 0, 0, false) // recorded once the database is really closed
 	return err
 }
 
